@@ -34,7 +34,8 @@ def indexed_only(db, ctx):
         raise AnchorMissing("write_index: IndexBuilder::add call")
     for c, ps in adds:
         pcs = path_conditions(c["id"], f.hir) or []
-        ok = any(isinstance(cn, dict) and pol is True and peel(cn).get("k") == "MethodCall" and peel(cn).get("method") == "should_index" for cn, pol in pcs)
+        ok = any(peel(a).get("k") == "MethodCall" and peel(a).get("method") == "should_index" and p is True
+                 for cn, pol in pcs if isinstance(cn, dict) for a, p in atoms(cn, pol))
         ctx.ob("write_index|add-under-should_index", ok, "IndexBuilder::add is control-dependent on e.should_index(): %s" % ok, fn=f, site=c.get("sp"))
     si = db.one("should_index", "RawLexiconEntry")
     body = peel(si.hir.get("expr") or si.hir)
@@ -139,7 +140,10 @@ def dic_id(db, ctx):
     stmts = f.hir.get("stmts", [])
     i_full = i_set = i_push = None
     set_arg = None
+    len_taken_at = None
     for i, st in enumerate(stmts):
+        if st.get("k") == "Let" and "init" in st and "lexicons.len()" in render(st["init"]) and len_taken_at is None:
+            len_taken_at = (i, st["pat"].get("name"))
         e = st.get("e") or st.get("init") or {}
         if e.get("k") == "If" and mentions(e["cond"], is_call_to("is_full")) and exit_kind(e["then"]) == "err":
             i_full = i
@@ -149,7 +153,9 @@ def dic_id(db, ctx):
                 set_arg = render(call_args(c)[1])
             if c.get("k") == "MethodCall" and c.get("method") == "push" and peel(c["recv"]).get("name") == "lexicons" and i_push is None:
                 i_push = i
-    ok = None not in (i_full, i_set, i_push) and i_full < i_set < i_push and "lexicons.len()" in (set_arg or "")
+    direct = "lexicons.len()" in (set_arg or "")
+    via_let = len_taken_at is not None and len_taken_at[1] is not None and len_taken_at[1] == (set_arg or "").replace(" as u8", "") and i_push is not None and len_taken_at[0] < i_push
+    ok = None not in (i_full, i_set, i_push) and i_full < i_push and i_full < i_set and ((direct and i_set < i_push) or via_let)
     ctx.ob("append|order", ok, "append: is_full rejection at %s, set_dic_id(%s) at %s, push at %s (must be in this order; the id is the "
                                "length before the push)" % (i_full, set_arg, i_set, i_push), fn=f)
     lk = db.one("lookup", "Lexicon")
